@@ -6,7 +6,8 @@ import verif
 
 
 def judge(ctx, cases):
-    recs, res = jpfam.judge_paths(ctx, cases, "c05")
+    # shrinking only in the main run (cases = file); a replay / confirmation judges the witness as it is
+    recs, res = jpfam.judge_paths(ctx, cases, "c05", shrink=isinstance(cases, str))
     ctx.cov["evaluations"] += res["n"] * 4          # simple/gen data x built/parsed expression, one Get each
     ctx._hits = getattr(ctx, "_hits", set()) | set(res.get("hits", {}))
     return recs
